@@ -9,6 +9,7 @@ import BV.C01.ChainComplete
 import BV.C01.HeightLemmas
 import BV.C01.ApiLemmas
 import BV.C01.RawLemmas
+import BV.C01.C13Lemmas
 import BV.Generated.C01
 import BV.C09.Model
 namespace BV.C01
@@ -560,6 +561,25 @@ theorem raw_pow_is_c09 (n : Net) (now : Int) (anc : List BV.C08.Block) (blk : BV
       ruleOk .powHash (describe n now anc blk len bits) = true) ↔
     BV.C09.checkProofOfWork (hdrBits blk.1) (BV.C08.blockHash blk.1) n.pow.powLimit = .ok :=
   pow_rules_are_c09 (describe n now anc blk len bits) (BV.C08.blockHash blk.1) rfl rfl
+
+/-- the finality rule is C13's `isFinal` (Core's `IsFinalTx`) on the same lock time, sequences, height and cutoff -/
+theorem finality_rule_is_c13 (t : TxFacts) (lt : Nat) (hlt : t.lockTime = (lt : Int)) (height cutoff : Int) :
+    t.final height cutoff = BV.C13.Spec.isFinal lt (t.ins.map (·.seq)) height cutoff :=
+  C13Lemmas.final_is_c13 t lt hlt height cutoff
+
+/-- the BIP68 rule on the inputs of a transaction is C13's `CalculateSequenceLocks` / `EvaluateSequenceLocks` -/
+theorem bip68_rule_is_c13 (ins : List InFacts) (height mtp : Int) (hh : 0 ≤ height) (hm : 0 ≤ mtp) :
+    ins.all (fun i => i.seqLockOk height mtp) = true ↔
+      BV.C13.Spec.locksSatisfied (BV.C13.Spec.sequenceLocks true (ins.map C13Lemmas.seqInput)).1
+        (BV.C13.Spec.sequenceLocks true (ins.map C13Lemmas.seqInput)).2 height mtp = true :=
+  C13Lemmas.seqLocks_all_is_c13 ins height mtp hh hm
+
+/-- the sigop facts of a derived transaction are C13's counters on C08's decoded scripts, the spent scripts coming
+    from C03's utxo set -/
+theorem raw_sigops_are_c13 (u : BV.C03.Spec.UtxoSet) (c : List BV.C09.Hdr) (t : BV.C08.Tx) (bits : List (Bool × Nat)) :
+    (txFacts u c t bits).legacySigops =
+      (((t.2.1.map (fun i => BV.C13.Spec.sigOps false i.2.2.1)).sum +
+        (t.2.2.1.map (fun o => BV.C13.Spec.sigOps false o.2)).sum : Nat) : Int) := rfl
 
 /-- the sanity stage of the derived description does not read the ancestors -/
 theorem raw_context_free (n : Net) (now : Int) : Lemmas.ContextFree (DRaw n now) := contextFree_raw n now
